@@ -11,7 +11,12 @@
      Every listed component occurs in at least one equation; none is bound through the oracle alone.
      Scalars (responses) and h'^eps are not hashed: they are bound by equations only.
    * "fewer than t shares fail" as an event: stated as secrecy (C09_bls_below_t), the rejection itself is generic-case.
-   * the request's mPrime field is read by nobody (C09_ps_mprime_field_unused): changing it changes nothing. *)
+   * the request's mPrime field is read by nobody (C09_ps_mprime_field_unused): changing it changes nothing.
+
+   Object state.  The model has none: keys, parameters and party lists are ARGUMENTS of the model functions, whereas the Go
+   Prover, Verifier and TPS are long-lived objects that are (re-)initialised by Init / SetShareData.  "A re-initialised object
+   behaves like a newly constructed one" is a modelling decision, tied on every run by the long-lived-objects family of the
+   check (the same objects through several key epochs, each verdict compared with fresh objects on the same input). *)
 From mathcomp Require Import all_ssreflect all_algebra.
 From TSS Require Import Alg.Lagrange Alg.PS Alg.Sigma Alg.BLSVerify Corr.PSCorr.
 Import GRing.Theory.
